@@ -717,6 +717,11 @@ def decide(pid, tier, seed):
                 if not real:
                     n_dis += 1
             was_auto = set(reg["harnesses"][n].get("auto_failures", []))
+            if unsupported or unwind_fail:
+                # a run that reached a construct the verifier does not support (or left a loop partly unwound)
+                # cuts paths and reports follow-up failures inside std: its automatic checks are not believed -
+                # the harness is undecided (recorded above), never an alarm
+                real = []
             for c in real:
                 key = f"{c['name']}: {c['desc']} @ {c['loc']}"
                 tag = pid + "/auto." + c["name"]
